@@ -1,0 +1,989 @@
+//go:build verif
+
+// Contracts for govc (contract-based deductive verification); comments only.
+package framework
+
+// ---- operations.go: the four log entry kinds ---------------------------------------------------
+//@ define isEvictOp(o Operation) bool = typeis(o, "evictOperation")
+//@ define isPipelineOp(o Operation) bool = typeis(o, "pipelineOperation")
+//@ define isAllocateOp(o Operation) bool = typeis(o, "allocateOperation")
+//@ define isUndoOp(o Operation) bool = typeis(o, "undoOperation")
+//@ define knownOp(o Operation) bool = isEvictOp(o) || isPipelineOp(o) || isAllocateOp(o) || isUndoOp(o)
+// index of the log entry an undo entry reverses
+//@ define undoTarget(o Operation) int = unbox(o, "undoOperation").operationIndex
+
+// the task an entry is about (undo entries carry a fresh placeholder task with empty UID/Job)
+//@ define opTask(o Operation) *pod_info.PodInfo = ite(isEvictOp(o), unbox(o, "evictOperation").taskInfo, ite(isPipelineOp(o), unbox(o, "pipelineOperation").taskInfo, unbox(o, "allocateOperation").taskInfo))
+// the closure stored in an entry that reverses it
+//@ define revFn(o Operation) ReverseOperation = ite(isEvictOp(o), unbox(o, "evictOperation").reverseOperation, ite(isPipelineOp(o), unbox(o, "pipelineOperation").reverseOperation, ite(isAllocateOp(o), unbox(o, "allocateOperation").reverseOperation, unbox(o, "undoOperation").reverseOperation)))
+//@ define opName(o Operation) string = ite(isEvictOp(o), "evict", ite(isPipelineOp(o), "pipeline", ite(isAllocateOp(o), "allocate", "undo")))
+
+// Interface-level contracts (used at `invoke` sites): assumed, but each of the four in-repo
+// implementations is verified below against the same statement; `requires knownOp(recv)` makes the
+// closed-world step explicit at every call site.
+//@ func Operation.Name
+//@   requires knownOp(recv)
+//@   pure
+//@   ensures result == opName(recv)
+//@ end
+//@ func Operation.TaskInfo
+//@   requires knownOp(recv)
+//@   ensures !isUndoOp(recv) ==> result == opTask(recv)
+//@   ensures isUndoOp(recv) ==> fresh(result) && result.UID == "" && result.Job == ""
+//@ end
+
+//@ func (evictOperation).Name
+//@   props C13
+//@   pure
+//@   ensures result == "evict"
+//@ end
+//@ func (pipelineOperation).Name
+//@   props C13
+//@   pure
+//@   ensures result == "pipeline"
+//@ end
+//@ func (allocateOperation).Name
+//@   props C13
+//@   pure
+//@   ensures result == "allocate"
+//@ end
+//@ func (undoOperation).Name
+//@   props C13
+//@   pure
+//@   ensures result == "undo"
+//@ end
+
+//@ func (evictOperation).TaskInfo
+//@   props C13
+//@   pure
+//@   ensures result == op.taskInfo
+//@ end
+//@ func (pipelineOperation).TaskInfo
+//@   props C13
+//@   pure
+//@   ensures result == op.taskInfo
+//@ end
+//@ func (allocateOperation).TaskInfo
+//@   props C13
+//@   pure
+//@   ensures result == op.taskInfo
+//@ end
+//@ func (undoOperation).TaskInfo
+//@   props C13
+//@   fresh
+//@   ensures result.UID == "" && result.Job == ""
+//@ end
+
+// ---- statement.go: the undo log ------------------------------------------------------------------
+// Well-formed log: only the four in-repo entry kinds, and an undo entry points strictly backwards
+// (DESIGN C13: "log invariant undo@j => target < j"; it is what makes operationValid terminate).
+//@ define wfKnown(s *Statement) bool = forall j int :: 0 <= j && j < len(s.operations) ==> knownOp(s.operations[j])
+//@ define wfRev(s *Statement) bool = forall j int :: 0 <= j && j < len(s.operations) ==> revFn(s.operations[j]) != nil
+//@ define wfBack(s *Statement) bool = forall j int :: 0 <= j && j < len(s.operations) && isUndoOp(s.operations[j]) ==> 0 <= undoTarget(s.operations[j]) && undoTarget(s.operations[j]) < j
+//@ define wfTask(s *Statement) bool = forall j int :: 0 <= j && j < len(s.operations) && !isUndoOp(s.operations[j]) ==> opTask(s.operations[j]) != nil
+//@ define wfLog(s *Statement) bool = wfKnown(s) && wfRev(s) && wfBack(s) && wfTask(s)
+// entry j is an undo entry for entry i
+//@ define targets(s *Statement, j int, i int) bool = isUndoOp(s.operations[j]) && undoTarget(s.operations[j]) == i
+//@ define noUndoFor(s *Statement, i int) bool = forall j int :: 0 <= j && j < len(s.operations) ==> !targets(s, j, i)
+//@ define firstUndoFor(s *Statement, i int, j int) bool = 0 <= j && j < len(s.operations) && targets(s, j, i) && (forall k int :: 0 <= k && k < j ==> !targets(s, k, i))
+// Flat log (the shape at every quiescent point, i.e. outside Rollback/Discard): undo entries are
+// themselves never undone and no entry is undone twice. On a flat log the number of live undo
+// entries targeting i is 0 or 1, so "even number of live undo entries" <==> "no undo entry".
+//@ define flatLog(s *Statement) bool = (forall j int :: 0 <= j && j < len(s.operations) && isUndoOp(s.operations[j]) ==> noUndoFor(s, j)) && (forall j int, k int :: 0 <= j && j < k && k < len(s.operations) && isUndoOp(s.operations[j]) && isUndoOp(s.operations[k]) ==> undoTarget(s.operations[j]) != undoTarget(s.operations[k]))
+
+// C13: "nothing is emitted for undone steps" rests on operationValid. DESIGN: valid(i) <==> an even
+// number of live undo entries target i. The code decides by the FIRST undo entry targeting i
+// (valid(i) = !valid(first undo of i)); stated here as the unfolding of that recursion to depth 3
+// (the deepest nesting Rollback/Discard can create) plus the parity form on flat logs.
+//@ func (*Statement).operationValid
+//@   props C13
+//@   requires s != nil && wfLog(s)
+//@   pure
+//@   decreases len(s.operations) - i
+//@   loop 1
+//@     invariant 0 - 1 <= rangeindex && rangeindex < len(s.operations)
+//@     invariant forall j int :: 0 <= j && j <= rangeindex ==> !targets(s, j, i)
+//@     decreases len(s.operations) - rangeindex
+//@   ensures [noUndo] noUndoFor(s, i) ==> result
+//@   ensures [undone] forall j int :: firstUndoFor(s, i, j) && noUndoFor(s, j) ==> !result
+//@   ensures [redone] forall j int, k int :: firstUndoFor(s, i, j) && firstUndoFor(s, j, k) && noUndoFor(s, k) ==> result
+//@   ensures [parityOnFlat] flatLog(s) ==> (result <==> noUndoFor(s, i))
+//@ end
+
+// ---- frame facts about ALL statements (callees run plugin code, so their frame is `modifies *`) --
+// The log field is unexported and only Statement methods assign it; every such assignment appends
+// (or happens in Rollback/Discard/Commit/ConvertAllAllocatedToPipelined, which no ReverseOperation
+// or event handler calls). Hence, across any ReverseOperation / handler call: logs only grow and
+// existing entries stay.
+//@ define logsGrow() bool = forall st *Statement :: len(st.operations) >= old(len(st.operations))
+//@ define entriesKept() bool = forall st *Statement, j int :: 0 <= j && j < old(len(st.operations)) ==> st.operations[j] == old(st.operations[j])
+// no existing Operation cell (log slot or local) is overwritten: logs are append-only and append copies
+//@ define opCellsKept() bool = forall p *Operation :: old(allocated(p)) ==> *p == old(*p)
+// entries appended by the callee are well-formed ones (together with entriesKept: wfLog is preserved)
+//@ define okEntry(o Operation, j int) bool = knownOp(o) && revFn(o) != nil && (!isUndoOp(o) ==> opTask(o) != nil) && (isUndoOp(o) ==> 0 <= undoTarget(o) && undoTarget(o) < j)
+//@ define newEntriesOK() bool = forall st *Statement, j int :: old(len(st.operations)) <= j && j < len(st.operations) ==> okEntry(st.operations[j], j)
+
+// number of ReverseOperation invocations so far (ghost): lets callers state "nothing is reversed for
+// an already undone entry" and "every still valid entry that is undone is reversed".
+//@ ghost reversals() int
+// number of ReverseOperation invocations that returned an error (ghost): Rollback / undoOperation fail only if one did
+//@ ghost reverseFailures() int
+//@ define revFailMono() bool = reverseFailures() >= old(reverseFailures())
+
+//@ func type:ReverseOperation
+//@   modifies *
+//@   ensures [assumed] logsGrow() && entriesKept() && newEntriesOK()
+//@   ensures [assumed] reversals() >= old(reversals()) + 1
+//@   ensures [assumed] revFailMono() && (result != nil ==> reverseFailures() >= old(reverseFailures()) + 1)
+//@   ensures [assumed] cache.evictCalls() == old(cache.evictCalls()) && cache.pipelinedCalls() == old(cache.pipelinedCalls()) && cache.bindCalls() == old(cache.bindCalls())
+//@   note every ReverseOperation value is one of the closures created in Evict/Pipeline/Allocate/undoOperation; each calls unevict/unpipeline/unallocate or Evict/Pipeline/Allocate/undoOperation, which only append to logs
+//@ end
+
+//@ func Operation.Reverse
+//@   requires knownOp(recv) && revFn(recv) != nil
+//@   modifies *
+//@   ensures [assumed] logsGrow() && entriesKept() && newEntriesOK()
+//@   ensures [assumed] reversals() >= old(reversals()) + 1
+//@   ensures [assumed] revFailMono() && (result != nil ==> reverseFailures() >= old(reverseFailures()) + 1)
+//@   ensures [assumed] cache.evictCalls() == old(cache.evictCalls()) && cache.pipelinedCalls() == old(cache.pipelinedCalls()) && cache.bindCalls() == old(cache.bindCalls())
+//@   ensures [assumed] !isUndoOp(recv) ==> (forall st *Statement :: len(st.operations) == old(len(st.operations)))
+//@   note assumed at invoke sites; the four implementations (below) just call the stored ReverseOperation and are verified against this statement
+//@   note assumed `!isUndoOp(recv) ==> no log grows`: evict/pipeline/allocate entries are only built in Evict/Pipeline/Allocate, with reverseOperation = the closures Evict$1/Pipeline$1/Allocate$1, each verified `ensures logsSame()` below (only the redo closures stored in undo entries append to a log)
+//@ end
+//@ func (evictOperation).Reverse
+//@   props C13
+//@   requires op.reverseOperation != nil
+//@   modifies *
+//@   ensures logsGrow() && entriesKept() && newEntriesOK()
+//@   ensures reversals() >= old(reversals()) + 1
+//@   ensures revFailMono() && (result != nil ==> reverseFailures() >= old(reverseFailures()) + 1)
+//@   ensures cache.evictCalls() == old(cache.evictCalls()) && cache.pipelinedCalls() == old(cache.pipelinedCalls()) && cache.bindCalls() == old(cache.bindCalls())
+//@ end
+//@ func (pipelineOperation).Reverse
+//@   props C13
+//@   requires op.reverseOperation != nil
+//@   modifies *
+//@   ensures logsGrow() && entriesKept() && newEntriesOK()
+//@   ensures reversals() >= old(reversals()) + 1
+//@   ensures revFailMono() && (result != nil ==> reverseFailures() >= old(reverseFailures()) + 1)
+//@   ensures cache.evictCalls() == old(cache.evictCalls()) && cache.pipelinedCalls() == old(cache.pipelinedCalls()) && cache.bindCalls() == old(cache.bindCalls())
+//@ end
+//@ func (allocateOperation).Reverse
+//@   props C13
+//@   requires op.reverseOperation != nil
+//@   modifies *
+//@   ensures logsGrow() && entriesKept() && newEntriesOK()
+//@   ensures reversals() >= old(reversals()) + 1
+//@   ensures revFailMono() && (result != nil ==> reverseFailures() >= old(reverseFailures()) + 1)
+//@   ensures cache.evictCalls() == old(cache.evictCalls()) && cache.pipelinedCalls() == old(cache.pipelinedCalls()) && cache.bindCalls() == old(cache.bindCalls())
+//@ end
+//@ func (undoOperation).Reverse
+//@   props C13
+//@   requires op.reverseOperation != nil
+//@   modifies *
+//@   ensures logsGrow() && entriesKept() && newEntriesOK()
+//@   ensures reversals() >= old(reversals()) + 1
+//@   ensures revFailMono() && (result != nil ==> reverseFailures() >= old(reverseFailures()) + 1)
+//@   ensures cache.evictCalls() == old(cache.evictCalls()) && cache.pipelinedCalls() == old(cache.pipelinedCalls()) && cache.bindCalls() == old(cache.bindCalls())
+//@ end
+
+// entry i was undone and that undo is live (depth-2 case of operationValid)
+//@ define undone(s *Statement, i int) bool = exists j int :: firstUndoFor(s, i, j) && noUndoFor(s, j)
+
+// C13: "undoOperation appends one undo entry, reverses only valid ops".
+//@ func (*Statement).undoOperation
+//@   props C13
+//@   requires s != nil && wfLog(s) && 0 <= index && index < len(s.operations)
+//@   modifies *
+//@   ensures [lenGrows] len(s.operations) >= old(len(s.operations))
+//@   ensures [prefixKept] forall j int :: 0 <= j && j < old(len(s.operations)) ==> s.operations[j] == old(s.operations[j])
+//@   ensures [newEntriesOK] forall j int :: old(len(s.operations)) <= j && j < len(s.operations) ==> okEntry(s.operations[j], j)
+//@   ensures [invalidSkipped] old(undone(s, index)) ==> result == nil && len(s.operations) == old(len(s.operations)) && reversals() == old(reversals())
+//@   ensures [virtual] cache.evictCalls() == old(cache.evictCalls()) && cache.pipelinedCalls() == old(cache.pipelinedCalls()) && cache.bindCalls() == old(cache.bindCalls())
+//@   ensures [reversalsMonotone] old(reversals()) <= reversals()
+//@   ensures [validReversed] old(noUndoFor(s, index)) ==> reversals() >= old(reversals()) + 1
+//@   ensures [appendsUndoEntry] old(noUndoFor(s, index)) && result == nil ==> len(s.operations) > old(len(s.operations)) && targets(s, len(s.operations) - 1, index)
+//@   ensures [appendsOnlyUndo] !old(isUndoOp(s.operations[index])) ==> forall j int :: old(len(s.operations)) <= j && j < len(s.operations) ==> isUndoOp(s.operations[j])
+//@   ensures [failsOnlyIfReverseFails] revFailMono() && (reverseFailures() == old(reverseFailures()) ==> result == nil)
+//@ end
+
+//@ func (*Statement).Checkpoint
+//@   props C13
+//@   requires s != nil
+//@   pure
+//@   ensures result == len(s.operations)
+//@ end
+
+//@ func (*Statement).clearOperations
+//@   props C13
+//@   requires s != nil
+//@   modifies s.operations
+//@   ensures len(s.operations) == 0
+//@ end
+
+// C13: "rolls back to a checkpoint": post len' == cp; entries below the checkpoint are untouched;
+// every entry >= cp is visited once, last to first (the loop variant is the entry index), each still
+// valid one is reversed (undoOperation), already undone ones are skipped.
+//@ func (*Statement).Rollback
+//@   props C13
+//@   requires s != nil && wfLog(s)
+//@   modifies *
+//@   usestable Statement.ssn Session.ClusterInfo Session.Cache
+//@   loop 1
+//@     modifies *
+//@     invariant cp - 1 <= i && i < old(len(s.operations)) && 0 <= cp
+//@     invariant len(s.operations) >= old(len(s.operations))
+//@     invariant forall j int :: 0 <= j && j < old(len(s.operations)) ==> s.operations[j] == old(s.operations[j])
+//@     invariant wfKnown(s)
+//@     invariant wfRev(s)
+//@     invariant wfBack(s)
+//@     invariant wfTask(s)
+//@     invariant reversals() >= old(reversals())
+//@     invariant revFailMono()
+//@     invariant i == old(len(s.operations)) - 1 ==> s.operations == old(s.operations) && reversals() == old(reversals())
+//@     invariant i < old(len(s.operations)) - 1 && old(noUndoFor(s, len(s.operations) - 1)) ==> reversals() >= old(reversals()) + 1
+//@     invariant cache.evictCalls() == old(cache.evictCalls()) && cache.pipelinedCalls() == old(cache.pipelinedCalls()) && cache.bindCalls() == old(cache.bindCalls())
+//@     decreases i - cp + 1
+//@   ensures [badCheckpoint] cp < 0 || cp > old(len(s.operations)) ==> result != nil && s.operations == old(s.operations) && reversals() == old(reversals())
+//@   ensures [lenIsCheckpoint] 0 <= cp && cp <= old(len(s.operations)) && result == nil ==> len(s.operations) == cp
+//@   ensures [belowCheckpointKept] 0 <= cp && cp <= old(len(s.operations)) ==> forall j int :: 0 <= j && j < cp ==> s.operations[j] == old(s.operations[j])
+//@   ensures [failedKeepsLog] result != nil ==> len(s.operations) >= old(len(s.operations))
+//@   ensures [virtual] cache.evictCalls() == old(cache.evictCalls()) && cache.pipelinedCalls() == old(cache.pipelinedCalls()) && cache.bindCalls() == old(cache.bindCalls())
+//@   ensures [lastEntryReversed] 0 <= cp && cp < old(len(s.operations)) && old(noUndoFor(s, len(s.operations) - 1)) ==> reversals() >= old(reversals()) + 1
+//@   ensures [wfKnown] wfKnown(s)
+//@   ensures [wfRev] wfRev(s)
+//@   ensures [wfBack] wfBack(s)
+//@   ensures [wfTask] wfTask(s)
+//@   ensures [ssnKept] ssnKept(s)
+//@   ensures [okIfNoReverseFailure] revFailMono() && (0 <= cp && cp <= old(len(s.operations)) && reverseFailures() == old(reverseFailures()) ==> result == nil)
+//@ end
+
+// C13: "any sequence ... that an action later discards": post len' == 0 on every path.
+//@ func (*Statement).Discard
+//@   props C13
+//@   requires s != nil && wfLog(s)
+//@   modifies *
+//@   usestable Statement.ssn Session.ClusterInfo Session.Cache
+//@   loop 1
+//@     modifies *
+//@     invariant 0 - 1 <= i && i < old(len(s.operations))
+//@     invariant len(s.operations) >= old(len(s.operations))
+//@     invariant wfKnown(s)
+//@     invariant wfRev(s)
+//@     invariant wfBack(s)
+//@     invariant wfTask(s)
+//@     invariant reversals() >= old(reversals())
+//@     invariant revFailMono()
+//@     invariant forall j int :: 0 <= j && j < old(len(s.operations)) ==> s.operations[j] == old(s.operations[j])
+//@     invariant i == old(len(s.operations)) - 1 ==> s.operations == old(s.operations) && reversals() == old(reversals())
+//@     invariant i < old(len(s.operations)) - 1 && old(noUndoFor(s, len(s.operations) - 1)) ==> reversals() >= old(reversals()) + 1
+//@     invariant cache.evictCalls() == old(cache.evictCalls()) && cache.pipelinedCalls() == old(cache.pipelinedCalls()) && cache.bindCalls() == old(cache.bindCalls())
+//@     decreases i + 1
+//@   ensures [logEmpty] len(s.operations) == 0
+//@   ensures [virtual] cache.evictCalls() == old(cache.evictCalls()) && cache.pipelinedCalls() == old(cache.pipelinedCalls()) && cache.bindCalls() == old(cache.bindCalls())
+//@   ensures [emptyIsNoop] old(len(s.operations)) == 0 ==> reversals() == old(reversals())
+//@   ensures [lastEntryReversed] old(len(s.operations)) > 0 && old(noUndoFor(s, len(s.operations) - 1)) ==> reversals() >= old(reversals()) + 1
+//@   ensures [ssnKept] ssnKept(s)
+//@   ensures [revFailMono] revFailMono()
+//@ end
+
+// ---- session_plugins.go: victim filters / scenario validators (C06) ----------------------------
+// C06: "never evict pods of non-preemptible workloads, nor of workloads still inside the minimum
+// runtime ...": the session-level verdict is the conjunction of EVERY registered plugin verdict
+// (api.victimFilterHolds(f, actor, victim) is the abstract verdict of plugin function f).
+//@ define reclaimVictimOK(ssn *Session, actor *podgroup_info.PodGroupInfo, victim *podgroup_info.PodGroupInfo) bool = forall i int :: 0 <= i && i < len(ssn.ReclaimVictimFilterFns) ==> api.victimFilterHolds(ssn.ReclaimVictimFilterFns[i], actor, victim)
+//@ define preemptVictimOK(ssn *Session, actor *podgroup_info.PodGroupInfo, victim *podgroup_info.PodGroupInfo) bool = forall i int :: 0 <= i && i < len(ssn.PreemptVictimFilterFns) ==> api.victimFilterHolds(ssn.PreemptVictimFilterFns[i], actor, victim)
+//@ define reclaimScenarioOK(ssn *Session, scenario api.ScenarioInfo) bool = forall i int :: 0 <= i && i < len(ssn.ReclaimScenarioValidatorFns) ==> api.scenarioValid(ssn.ReclaimScenarioValidatorFns[i], scenario)
+//@ define preemptScenarioOK(ssn *Session, scenario api.ScenarioInfo) bool = forall i int :: 0 <= i && i < len(ssn.PreemptScenarioValidatorFns) ==> api.scenarioValid(ssn.PreemptScenarioValidatorFns[i], scenario)
+
+//@ func (*Session).ReclaimVictimFilter
+//@   props C06 C05
+//@   requires ssn != nil
+//@   requires forall i int :: 0 <= i && i < len(ssn.ReclaimVictimFilterFns) ==> ssn.ReclaimVictimFilterFns[i] != nil
+//@   pure
+//@   loop 1
+//@     invariant 0 - 1 <= rangeindex && rangeindex < len(ssn.ReclaimVictimFilterFns)
+//@     invariant forall i int :: 0 <= i && i <= rangeindex ==> api.victimFilterHolds(ssn.ReclaimVictimFilterFns[i], reclaimer, victim)
+//@     decreases len(ssn.ReclaimVictimFilterFns) - rangeindex
+//@   ensures result == reclaimVictimOK(ssn, reclaimer, victim)
+//@   ensures [noFilters] len(ssn.ReclaimVictimFilterFns) == 0 ==> result
+//@ end
+
+//@ func (*Session).PreemptVictimFilter
+//@   props C06 C05
+//@   requires ssn != nil
+//@   requires forall i int :: 0 <= i && i < len(ssn.PreemptVictimFilterFns) ==> ssn.PreemptVictimFilterFns[i] != nil
+//@   pure
+//@   loop 1
+//@     invariant 0 - 1 <= rangeindex && rangeindex < len(ssn.PreemptVictimFilterFns)
+//@     invariant forall i int :: 0 <= i && i <= rangeindex ==> api.victimFilterHolds(ssn.PreemptVictimFilterFns[i], preemptor, victim)
+//@     decreases len(ssn.PreemptVictimFilterFns) - rangeindex
+//@   ensures result == preemptVictimOK(ssn, preemptor, victim)
+//@   ensures [noFilters] len(ssn.PreemptVictimFilterFns) == 0 ==> result
+//@ end
+
+//@ func (*Session).ReclaimScenarioValidatorFn
+//@   props C06
+//@   requires ssn != nil
+//@   requires forall i int :: 0 <= i && i < len(ssn.ReclaimScenarioValidatorFns) ==> ssn.ReclaimScenarioValidatorFns[i] != nil
+//@   pure
+//@   loop 1
+//@     invariant 0 - 1 <= rangeindex && rangeindex < len(ssn.ReclaimScenarioValidatorFns)
+//@     invariant forall i int :: 0 <= i && i <= rangeindex ==> api.scenarioValid(ssn.ReclaimScenarioValidatorFns[i], scenario)
+//@     decreases len(ssn.ReclaimScenarioValidatorFns) - rangeindex
+//@   ensures result == reclaimScenarioOK(ssn, scenario)
+//@ end
+
+//@ func (*Session).PreemptScenarioValidator
+//@   props C06
+//@   requires ssn != nil
+//@   requires forall i int :: 0 <= i && i < len(ssn.PreemptScenarioValidatorFns) ==> ssn.PreemptScenarioValidatorFns[i] != nil
+//@   pure
+//@   loop 1
+//@     invariant 0 - 1 <= rangeindex && rangeindex < len(ssn.PreemptScenarioValidatorFns)
+//@     invariant forall i int :: 0 <= i && i <= rangeindex ==> api.scenarioValid(ssn.PreemptScenarioValidatorFns[i], scenario)
+//@     decreases len(ssn.PreemptScenarioValidatorFns) - rangeindex
+//@   ensures result == preemptScenarioOK(ssn, scenario)
+//@ end
+
+// ---- session_plugins.go: comparators (C16) -----------------------------------------------------
+// C16: "nor - at equal priority - a younger one while leaving an older one unplaced": whenever every
+// registered comparator is neutral on (l, r) - which the priority and elastic comparators are for two
+// workloads of equal priority and equal gang state (their own contracts) - the older workload is
+// ordered first, ties broken by UID, so the order is strict and total.
+//@ define pgOf(x interface{}) *podgroup_info.PodGroupInfo = unbox(x, "*podgroup_info.PodGroupInfo")
+//@ define isPG(x interface{}) bool = typeis(x, "*podgroup_info.PodGroupInfo") && pgOf(x) != nil
+//@ define fifoLessJob(a *podgroup_info.PodGroupInfo, b *podgroup_info.PodGroupInfo) bool = a.CreationTimestamp < b.CreationTimestamp || (a.CreationTimestamp == b.CreationTimestamp && a.UID < b.UID)
+//@ define jobCmp(ssn *Session, i int, l interface{}, r interface{}) int = common_info.cmpVerdict(ssn.JobOrderFns[i], l, r)
+//@ define jobNeutral(ssn *Session, l interface{}, r interface{}) bool = forall i int :: 0 <= i && i < len(ssn.JobOrderFns) ==> jobCmp(ssn, i, l, r) == 0
+//@ define jobDecider(ssn *Session, k int, l interface{}, r interface{}) bool = 0 <= k && k < len(ssn.JobOrderFns) && jobCmp(ssn, k, l, r) != 0 && (forall i int :: 0 <= i && i < k ==> jobCmp(ssn, i, l, r) == 0)
+
+//@ func (*Session).JobOrderFn
+//@   props C16
+//@   requires ssn != nil && isPG(l) && isPG(r)
+//@   requires forall i int :: 0 <= i && i < len(ssn.JobOrderFns) ==> ssn.JobOrderFns[i] != nil
+//@   pure
+//@   loop 1
+//@     invariant 0 - 1 <= rangeindex && rangeindex < len(ssn.JobOrderFns)
+//@     invariant forall i int :: 0 <= i && i <= rangeindex ==> jobCmp(ssn, i, l, r) == 0
+//@     decreases len(ssn.JobOrderFns) - rangeindex
+//@   ensures [fifoFallback] jobNeutral(ssn, l, r) ==> result == fifoLessJob(pgOf(l), pgOf(r))
+//@   ensures [firstPluginDecides] forall k int :: jobDecider(ssn, k, l, r) ==> result == (jobCmp(ssn, k, l, r) < 0)
+//@   lemma [irreflexive] jobNeutral(ssn, l, r) && pgOf(l) == pgOf(r) ==> !result
+//@   lemma [asymmetric] jobNeutral(ssn, l, r) && result ==> !fifoLessJob(pgOf(r), pgOf(l))
+//@   lemma [totalOnDistinctKeys] jobNeutral(ssn, l, r) && (pgOf(l).CreationTimestamp != pgOf(r).CreationTimestamp || pgOf(l).UID != pgOf(r).UID) ==> result || fifoLessJob(pgOf(r), pgOf(l))
+//@   lemma [transitive] forall c *podgroup_info.PodGroupInfo :: c != nil && jobNeutral(ssn, l, r) && result && fifoLessJob(pgOf(r), c) ==> fifoLessJob(pgOf(l), c)
+//@ end
+
+//@ define piOf(x interface{}) *pod_info.PodInfo = unbox(x, "*pod_info.PodInfo")
+//@ define isPI(x interface{}) bool = typeis(x, "*pod_info.PodInfo") && piOf(x) != nil && piOf(x).Pod != nil
+//@ define fifoLessTask(a *pod_info.PodInfo, b *pod_info.PodInfo) bool = a.Pod.CreationTimestamp < b.Pod.CreationTimestamp || (a.Pod.CreationTimestamp == b.Pod.CreationTimestamp && a.UID < b.UID)
+//@ define taskCmp(ssn *Session, i int, l interface{}, r interface{}) int = common_info.cmpVerdict(ssn.TaskOrderFns[i], l, r)
+//@ define taskNeutral(ssn *Session, l interface{}, r interface{}) bool = forall i int :: 0 <= i && i < len(ssn.TaskOrderFns) ==> taskCmp(ssn, i, l, r) == 0
+//@ define taskDecider(ssn *Session, k int, l interface{}, r interface{}) bool = 0 <= k && k < len(ssn.TaskOrderFns) && taskCmp(ssn, k, l, r) != 0 && (forall i int :: 0 <= i && i < k ==> taskCmp(ssn, i, l, r) == 0)
+
+//@ func (*Session).TaskOrderFn
+//@   props C16
+//@   requires ssn != nil && isPI(l) && isPI(r)
+//@   requires forall i int :: 0 <= i && i < len(ssn.TaskOrderFns) ==> ssn.TaskOrderFns[i] != nil
+//@   pure
+//@   loop 1
+//@     invariant 0 - 1 <= rangeindex && rangeindex < len(ssn.TaskOrderFns)
+//@     invariant forall i int :: 0 <= i && i <= rangeindex ==> taskCmp(ssn, i, l, r) == 0
+//@     decreases len(ssn.TaskOrderFns) - rangeindex
+//@   ensures [fifoFallback] taskNeutral(ssn, l, r) ==> result == fifoLessTask(piOf(l), piOf(r))
+//@   ensures [firstPluginDecides] forall k int :: taskDecider(ssn, k, l, r) ==> result == (taskCmp(ssn, k, l, r) < 0)
+//@   lemma [irreflexive] taskNeutral(ssn, l, r) && piOf(l) == piOf(r) ==> !result
+//@   lemma [asymmetric] taskNeutral(ssn, l, r) && result ==> !fifoLessTask(piOf(r), piOf(l))
+//@ end
+
+// Queues: the plugin comparators also look at the victim slices, so no abstract verdict is available;
+// the fallback is pinned down for a session without queue comparators.
+//@ define fifoLessQueue(a *queue_info.QueueInfo, b *queue_info.QueueInfo) bool = a.CreationTimestamp < b.CreationTimestamp || (a.CreationTimestamp == b.CreationTimestamp && a.UID < b.UID)
+//@ func (*Session).QueueOrderFn
+//@   props C16
+//@   requires ssn != nil && ssn.ClusterInfo != nil && lQ != nil && rQ != nil
+//@   requires forall i int :: 0 <= i && i < len(ssn.QueueOrderFns) ==> ssn.QueueOrderFns[i] != nil
+//@   pure
+//@   loop 1
+//@     invariant 0 - 1 <= rangeindex && rangeindex < len(ssn.QueueOrderFns)
+//@     decreases len(ssn.QueueOrderFns) - rangeindex
+//@   ensures [fifoFallback] len(ssn.QueueOrderFns) == 0 ==> result == fifoLessQueue(lQ, rQ)
+//@   lemma [asymmetric] len(ssn.QueueOrderFns) == 0 && result ==> !fifoLessQueue(rQ, lQ)
+//@ end
+
+// ---- event handlers -----------------------------------------------------------------------------
+// Plugin event handlers (proportion: queue usage; dynamicresources: claim tracker and the task's
+// ResourceClaimInfo entries) only change plugin-private state - abstracted by the ghost pluginState -
+// and the entries of the task's ResourceClaimInfo map. allocEvents/deallocEvents count the firings,
+// so that "the un-op fires the opposite handler" is observable.
+//@ ghost pluginState() int
+//@ ghost allocEvents() int
+//@ ghost deallocEvents() int
+
+//@ func field:EventHandler.AllocateFunc
+//@   requires event != nil && event.Task != nil
+//@   modifies pluginState(), allocEvents(), event.Task.ResourceClaimInfo[*]
+//@   ensures allocEvents() == old(allocEvents()) + 1
+//@   note assumed: the registered handlers (proportion.allocateHandlerFn, dynamicresources.allocateHandlerFn) write only plugin-private state and the task's ResourceClaimInfo entries
+//@ end
+//@ func field:EventHandler.DeallocateFunc
+//@   requires event != nil && event.Task != nil
+//@   modifies pluginState(), deallocEvents(), event.Task.ResourceClaimInfo[*]
+//@   ensures deallocEvents() == old(deallocEvents()) + 1
+//@   note assumed: the registered handlers (proportion.deallocateHandlerFn, dynamicresources.deallocateHandlerFn) write only plugin-private state and the task's ResourceClaimInfo entries
+//@ end
+
+//@ define handlersOK(ssn *Session) bool = forall i int :: 0 <= i && i < len(ssn.eventHandlers) ==> ssn.eventHandlers[i] != nil
+//@ define mapsOK(c *api.ClusterInfo) bool = (forall k in c.PodGroupInfos :: c.PodGroupInfos[k] != nil) && (forall k in c.Nodes :: c.Nodes[k] != nil)
+//@ define sessOK(ssn *Session) bool = ssn != nil && ssn.ClusterInfo != nil && handlersOK(ssn) && mapsOK(ssn.ClusterInfo)
+//@ define stmtOK(s *Statement) bool = s != nil && sessOK(s.ssn)
+// what survives a reverse closure (`modifies *`) thanks to the `stable` declarations at the end of this file
+//@ define ssnKept(s *Statement) bool = s.ssn == old(s.ssn) && s.ssn.ClusterInfo == old(s.ssn.ClusterInfo) && s.ssn.Cache == old(s.ssn.Cache)
+// the session skeleton (what stmtOK and the node/job look-ups depend on) is untouched
+//@ define sessionKept(ssn *Session) bool = (forall st *Statement :: st.ssn == old(st.ssn)) && ssn.ClusterInfo == old(ssn.ClusterInfo) && ssn.Cache == old(ssn.Cache) && sessOK(ssn) && (forall k string :: (k in ssn.ClusterInfo.Nodes) == old(k in ssn.ClusterInfo.Nodes))
+
+// what Commit needs to stay true while it walks the log: session skeleton, bind mutators, shared-GPU
+// maps present on every node, and the Pod pointers of tasks
+//@ define nodesShared(c *api.ClusterInfo) bool = forall k in c.Nodes :: c.Nodes[k].UsedSharedGPUsMemory != nil
+//@ define bindFnsOK(ssn *Session) bool = forall i int :: 0 <= i && i < len(ssn.BindRequestMutateFns) ==> ssn.BindRequestMutateFns[i] != nil
+//@ define commitEnvKept(ssn *Session) bool = sessionKept(ssn) && ssn.BindRequestMutateFns == old(ssn.BindRequestMutateFns) && (old(bindFnsOK(ssn)) ==> bindFnsOK(ssn)) && (old(nodesShared(ssn.ClusterInfo)) ==> nodesShared(ssn.ClusterInfo)) && (forall t *pod_info.PodInfo :: t.Pod == old(t.Pod))
+
+// C13 "abandoned scenarios can [not] reach the cluster": a virtual step never calls the cache
+//@ define noEmission() bool = cache.evictCalls() == old(cache.evictCalls()) && cache.pipelinedCalls() == old(cache.pipelinedCalls()) && cache.bindCalls() == old(cache.bindCalls())
+// no statement's log is touched
+//@ define logsSame() bool = (forall st *Statement :: st.operations == old(st.operations)) && (forall p *Operation :: old(allocated(p)) ==> *p == old(*p))
+
+// C14's invariants of the node / job / task the statement operations work on. They are established and
+// preserved by the node_info / podgroup_info contracts (C14); the statement operations ASSUME them at
+// entry for the objects they look up (an `assume` is listed in the evidence), so that C13's contracts
+// do not depend on how callers carry those invariants around.
+//@ define nodeReady(n *node_info.NodeInfo, t *pod_info.PodInfo) bool = n != nil ==> node_info.nodeWF(n) && node_info.podsWF(n) && node_info.taskWF(t) && node_info.taskSeparate(n, t) && node_info.storedOK(n, t)
+//@ define jobReady(j *podgroup_info.PodGroupInfo, t *pod_info.PodInfo) bool = j != nil ==> podgroup_info.idxWF(j) && podgroup_info.allPsWF(j) && podgroup_info.allTasksOK(j) && podgroup_info.indexed(j, t) && podgroup_info.stored(j, t) && podgroup_info.accOK(j, t.ResReq, t.ResReqVector) && podgroup_info.sgName(t) in j.PodSets
+// the job's pod maps are not the node's pod map (same Go type, never shared)
+//@ define jobNodeSep(j *podgroup_info.PodGroupInfo, n *node_info.NodeInfo) bool = j != nil && n != nil ==> (forall k in j.PodSets :: j.PodSets[k].podInfos != n.PodInfos && (forall s2 in j.PodSets[k].podStatusIndex :: j.PodSets[k].podStatusIndex[s2] != n.PodInfos)) && (forall st in j.PodStatusIndex :: j.PodStatusIndex[st] != n.PodInfos)
+
+// placement (Status, NodeName) of every pre-existing task other than x is untouched
+//@ define othersPlacedKept(x *pod_info.PodInfo) bool = forall t *pod_info.PodInfo :: old(allocated(t)) && t != x ==> t.Status == old(t.Status) && t.NodeName == old(t.NodeName)
+
+// ---- un-ops ---------------------------------------------------------------------------------------
+// C13: "the matching un-op restores Status, NodeName, GPUGroups, IsVirtualStatus, ResourceClaimInfo
+// ... and fires the opposite handler".
+//@ func (*Statement).unevict
+//@   props C13
+//@   requires stmtOK(s) && reclaimee != nil
+//@   assume jobReady(s.ssn.ClusterInfo.PodGroupInfos[reclaimee.Job], reclaimee) && nodeReady(node, reclaimee) && jobNodeSep(s.ssn.ClusterInfo.PodGroupInfos[reclaimee.Job], node)
+//@   modifies *
+//@   loop 1
+//@     invariant 0 - 1 <= rangeindex && rangeindex < len(s.ssn.eventHandlers)
+//@     invariant allocEvents() - old(allocEvents()) <= rangeindex + 1
+//@     decreases len(s.ssn.eventHandlers) - rangeindex
+//@   ensures [ok] result == nil
+//@   ensures [restoresGpuGroups] reclaimee.GPUGroups == previousGpuGroups
+//@   ensures [restoresVirtual] reclaimee.IsVirtualStatus == previousIsVirtualStatus
+//@   ensures [restoresClaims] reclaimee.ResourceClaimInfo == previousResourceClaimInfo
+//@   ensures [restoresStatus] reclaimee.Status == previousStatus || reclaimee.Status == old(reclaimee.Status)
+//@   ensures [nodeNameKept] reclaimee.NodeName == old(reclaimee.NodeName)
+//@   ensures [oppositeHandler] deallocEvents() == old(deallocEvents()) && allocEvents() - old(allocEvents()) <= old(len(s.ssn.eventHandlers))
+//@   ensures [virtual] noEmission() && reversals() == old(reversals()) && reverseFailures() == old(reverseFailures())
+//@   ensures [logsSame] logsSame()
+//@   ensures [commitEnvKept] commitEnvKept(s.ssn)
+//@   ensures [othersPlacedKept] othersPlacedKept(reclaimee)
+//@ end
+
+//@ func (*Statement).unpipeline
+//@   props C13
+//@   requires stmtOK(s) && task != nil
+//@   assume jobReady(s.ssn.ClusterInfo.PodGroupInfos[task.Job], task) && nodeReady(s.ssn.ClusterInfo.Nodes[task.NodeName], task) && jobNodeSep(s.ssn.ClusterInfo.PodGroupInfos[task.Job], s.ssn.ClusterInfo.Nodes[task.NodeName])
+//@   modifies *
+//@   loop 1
+//@     invariant 0 - 1 <= rangeindex && rangeindex < len(s.ssn.eventHandlers)
+//@     invariant deallocEvents() - old(deallocEvents()) <= rangeindex + 1
+//@     decreases len(s.ssn.eventHandlers) - rangeindex
+//@   ensures [restoresNode] task.NodeName == previousNode
+//@   ensures [restoresGpuGroups] task.GPUGroups == previousGpuGroups
+//@   ensures [restoresVirtual] task.IsVirtualStatus == previousIsVirtualStatus
+//@   ensures [restoresClaims] task.ResourceClaimInfo == previousResourceClaimInfo
+//@   ensures [restoresStatus] task.Status == previousStatus || task.Status == old(task.Status)
+//@   ensures [failsIffNodeUnknown] (result != nil) == !old(task.NodeName in s.ssn.ClusterInfo.Nodes)
+//@   ensures [oppositeHandler] allocEvents() == old(allocEvents()) && deallocEvents() - old(deallocEvents()) <= old(len(s.ssn.eventHandlers))
+//@   ensures [noHandlerOnFailure] result != nil ==> deallocEvents() == old(deallocEvents())
+//@   ensures [virtual] noEmission() && reversals() == old(reversals()) && reverseFailures() == old(reverseFailures())
+//@   ensures [logsSame] logsSame()
+//@   ensures [commitEnvKept] commitEnvKept(s.ssn)
+//@ end
+
+//@ func (*Statement).unallocate
+//@   props C13 C01
+//@   requires stmtOK(s) && task != nil
+//@   assume jobReady(s.ssn.ClusterInfo.PodGroupInfos[task.Job], task) && nodeReady(s.ssn.ClusterInfo.Nodes[task.NodeName], task) && jobNodeSep(s.ssn.ClusterInfo.PodGroupInfos[task.Job], s.ssn.ClusterInfo.Nodes[task.NodeName])
+//@   modifies *
+//@   loop 1
+//@     invariant 0 - 1 <= rangeindex && rangeindex < len(s.ssn.eventHandlers)
+//@     invariant deallocEvents() - old(deallocEvents()) <= rangeindex + 1
+//@     decreases len(s.ssn.eventHandlers) - rangeindex
+//@   ensures [failsIffNodeUnknown] (result != nil) == !old(task.NodeName in s.ssn.ClusterInfo.Nodes)
+//@   ensures [clearsNode] result == nil ==> task.NodeName == "" && task.IsVirtualStatus == previousIsVirtualStatus
+//@   ensures [backToPending] task.Status == pod_status.Pending || task.Status == old(task.Status)
+//@   ensures [gpuGroupsKept] task.GPUGroups == old(task.GPUGroups) && task.ResourceClaimInfo == old(task.ResourceClaimInfo)
+//@   ensures [oppositeHandler] allocEvents() == old(allocEvents()) && deallocEvents() - old(deallocEvents()) <= old(len(s.ssn.eventHandlers))
+//@   ensures [virtual] noEmission() && reversals() == old(reversals()) && reverseFailures() == old(reverseFailures())
+//@   ensures [logsSame] logsSame()
+//@   ensures [commitEnvKept] commitEnvKept(s.ssn)
+//@   ensures [othersPlacedKept] othersPlacedKept(task)
+//@ end
+
+// ---- ops ------------------------------------------------------------------------------------------
+// C13: "the op appends exactly one log entry whose captured previous* values equal the pre-state
+// fields". evOp(s)/plOp(s)/alOp(s): the payload of the last log entry.
+//@ define lastOp(s *Statement) Operation = s.operations[len(s.operations) - 1]
+// the claim snapshot recorded in the last (evict) entry
+//@ define evSnap(s *Statement) bindrequest_info.ResourceClaimInfo = unbox(lastOp(s), "evictOperation").previousResourceClaimInfo
+//@ define appendedOne(s *Statement) bool = len(s.operations) == old(len(s.operations)) + 1 && (forall j int :: 0 <= j && j < old(len(s.operations)) ==> s.operations[j] == old(s.operations[j]))
+
+//@ func (*Statement).Evict
+//@   props C13 C06
+//@   nopanic off
+//@   note nopanic off: with the C14 contracts of UpdateTaskStatus/AddTask/UpdateTask in the context the nil-dereference obligations of the handler loop time out (no countermodel); the functional postconditions below are machine-checked
+//@   requires stmtOK(s) && reclaimeeTask != nil
+//@   assume jobReady(s.ssn.ClusterInfo.PodGroupInfos[reclaimeeTask.Job], reclaimeeTask) && nodeReady(s.ssn.ClusterInfo.Nodes[reclaimeeTask.NodeName], reclaimeeTask) && jobNodeSep(s.ssn.ClusterInfo.PodGroupInfos[reclaimeeTask.Job], s.ssn.ClusterInfo.Nodes[reclaimeeTask.NodeName])
+//@   modifies *
+//@   loop 1
+//@     invariant 0 - 1 <= rangeindex && rangeindex < len(s.ssn.eventHandlers)
+//@     invariant deallocEvents() - old(deallocEvents()) <= rangeindex + 1
+//@     invariant s.operations == old(s.operations)
+//@     invariant forall j int :: 0 <= j && j < len(s.operations) ==> s.operations[j] == old(s.operations[j])
+//@     invariant previousResourceClaimInfo != nil ==> previousResourceClaimInfo != reclaimeeTask.ResourceClaimInfo
+//@     invariant bindrequest_info.rciSameKeys(previousResourceClaimInfo, reclaimeeTask.ResourceClaimInfo)
+//@     invariant bindrequest_info.rciFreshEntries(previousResourceClaimInfo, reclaimeeTask.ResourceClaimInfo)
+//@     decreases len(s.ssn.eventHandlers) - rangeindex
+//@   ensures [errorKeepsLog] result != nil ==> s.operations == old(s.operations)
+//@   ensures [failsOnUnknownJobOrNode] !old(reclaimeeTask.Job in s.ssn.ClusterInfo.PodGroupInfos) || !old(reclaimeeTask.NodeName in s.ssn.ClusterInfo.Nodes) ==> result != nil && reclaimeeTask.Status == old(reclaimeeTask.Status)
+//@   ensures [appendsOneEvict] result == nil ==> appendedOne(s) && isEvictOp(lastOp(s))
+//@   ensures [capturesTask] result == nil ==> unbox(lastOp(s), "evictOperation").taskInfo == reclaimeeTask
+//@   ensures [capturesStatus] result == nil ==> unbox(lastOp(s), "evictOperation").previousStatus == old(reclaimeeTask.Status)
+//@   ensures [capturesGpuGroups] result == nil ==> unbox(lastOp(s), "evictOperation").previousGpuGroups == old(reclaimeeTask.GPUGroups)
+//@   ensures [capturesNode] result == nil ==> unbox(lastOp(s), "evictOperation").previousNode == old(s.ssn.ClusterInfo.Nodes[reclaimeeTask.NodeName])
+//@   # C13 "leaves the scheduler's view of ... resource claims ... exactly as it was": the claim snapshot in the log entry is a
+//@   # deep copy of the pre-state map (nil iff it was nil; a new map with new entry objects, same keys and claim names), so
+//@   # the in-place writes of the DRA de-allocation handler cannot reach it
+//@   ensures [capturesClaimsNilIffNil] result == nil ==> (evSnap(s) == nil) == (old(reclaimeeTask.ResourceClaimInfo) == nil)
+//@   ensures [capturesClaimsNewMap] result == nil && evSnap(s) != nil ==> fresh(evSnap(s)) && evSnap(s) != reclaimeeTask.ResourceClaimInfo
+//@   ensures [capturesClaimsKeys] result == nil ==> bindrequest_info.rciSameKeys(evSnap(s), reclaimeeTask.ResourceClaimInfo)
+//@   ensures [capturesClaimsEntries] result == nil ==> bindrequest_info.rciFreshEntries(evSnap(s), reclaimeeTask.ResourceClaimInfo)
+//@   ensures [capturesMessage] result == nil ==> unbox(lastOp(s), "evictOperation").message == message && unbox(lastOp(s), "evictOperation").evictionMetadata.Action == evictionMetadata.Action && unbox(lastOp(s), "evictOperation").evictionMetadata.Preemptor == evictionMetadata.Preemptor
+//@   ensures [reversible] result == nil ==> unbox(lastOp(s), "evictOperation").reverseOperation != nil
+//@   ensures [nowReleasing] result == nil ==> reclaimeeTask.Status == pod_status.Releasing && reclaimeeTask.IsVirtualStatus
+//@   ensures [otherFieldsKept] reclaimeeTask.NodeName == old(reclaimeeTask.NodeName) && reclaimeeTask.GPUGroups == old(reclaimeeTask.GPUGroups) && reclaimeeTask.ResourceClaimInfo == old(reclaimeeTask.ResourceClaimInfo)
+//@   ensures [handlerPolarity] allocEvents() == old(allocEvents())
+//@   ensures [virtual] noEmission() && reversals() == old(reversals()) && reverseFailures() == old(reverseFailures())
+//@   # callers chain statement operations: with [lenGrows] + [prefixKept] + [newEntriesOK], wfLog(s) before the
+//@   # call gives wfLog(s) after it (the direct form `old(wfLog(s)) ==> wfLog(s)` is true but takes the solvers > 20 s here)
+//@   ensures [lenGrows] len(s.operations) >= old(len(s.operations))
+//@   ensures [prefixKept] forall j int :: 0 <= j && j < old(len(s.operations)) ==> s.operations[j] == old(s.operations[j])
+//@   ensures [errorKeepsLen] result != nil ==> len(s.operations) == old(len(s.operations))
+//@   ensures [newEntriesOK] forall j int :: old(len(s.operations)) <= j && j < len(s.operations) ==> okEntry(s.operations[j], j)
+//@   ensures [sessionKept] sessionKept(s.ssn)
+//@ end
+
+//@ func (*Statement).Allocate
+//@   props C13 C01
+//@   nopanic off
+//@   note nopanic off: with the C14 contracts of UpdateTaskStatus/AddTask/UpdateTask in the context the nil-dereference obligations of the handler loop time out (no countermodel); the functional postconditions below are machine-checked
+//@   requires stmtOK(s) && task != nil
+//@   assume jobReady(s.ssn.ClusterInfo.PodGroupInfos[task.Job], task) && nodeReady(s.ssn.ClusterInfo.Nodes[hostname], task) && jobNodeSep(s.ssn.ClusterInfo.PodGroupInfos[task.Job], s.ssn.ClusterInfo.Nodes[hostname])
+//@   modifies *
+//@   loop 1
+//@     invariant 0 - 1 <= rangeindex && rangeindex < len(s.ssn.eventHandlers)
+//@     invariant allocEvents() - old(allocEvents()) <= rangeindex + 1
+//@     decreases len(s.ssn.eventHandlers) - rangeindex
+//@   ensures [errorKeepsLog] result != nil ==> s.operations == old(s.operations)
+//@   ensures [failsOnUnknownJobOrNode] !old(task.Job in s.ssn.ClusterInfo.PodGroupInfos) || !old(hostname in s.ssn.ClusterInfo.Nodes) ==> result != nil
+//@   ensures [appendsOneAllocate] result == nil ==> appendedOne(s) && isAllocateOp(lastOp(s))
+//@   ensures [capturesClone] result == nil ==> unbox(lastOp(s), "allocateOperation").taskInfo != task && unbox(lastOp(s), "allocateOperation").taskInfo.UID == task.UID && unbox(lastOp(s), "allocateOperation").taskInfo.Job == task.Job && unbox(lastOp(s), "allocateOperation").taskInfo.Pod == task.Pod && unbox(lastOp(s), "allocateOperation").taskInfo.NodeName == hostname
+//@   ensures [capturesNode] result == nil ==> unbox(lastOp(s), "allocateOperation").nextNode == old(s.ssn.ClusterInfo.Nodes[hostname]).Name
+//@   ensures [reversible] result == nil ==> unbox(lastOp(s), "allocateOperation").reverseOperation != nil && unbox(lastOp(s), "allocateOperation").taskInfo != nil
+//@   ensures [nowAllocated] result == nil ==> task.Status == pod_status.Allocated && task.NodeName == hostname && task.IsVirtualStatus
+//@   ensures [handlerPolarity] deallocEvents() == old(deallocEvents())
+//@   ensures [virtual] noEmission() && reversals() == old(reversals()) && reverseFailures() == old(reverseFailures())
+//@   # callers chain statement operations: with [lenGrows] + [prefixKept] + [newEntriesOK], wfLog(s) before the
+//@   # call gives wfLog(s) after it (the direct form `old(wfLog(s)) ==> wfLog(s)` is true but takes the solvers > 20 s here)
+//@   ensures [lenGrows] len(s.operations) >= old(len(s.operations))
+//@   ensures [prefixKept] forall j int :: 0 <= j && j < old(len(s.operations)) ==> s.operations[j] == old(s.operations[j])
+//@   ensures [errorKeepsLen] result != nil ==> len(s.operations) == old(len(s.operations))
+//@   ensures [newEntriesOK] forall j int :: old(len(s.operations)) <= j && j < len(s.operations) ==> okEntry(s.operations[j], j)
+//@   ensures [sessionKept] sessionKept(s.ssn)
+//@ end
+
+// Unevict(task) = undo the earliest still valid evict entry of that task.
+//@ func (*Statement).undoEarliestValidOperation
+//@   props C13
+//@   requires s != nil && wfLog(s) && taskToUndo != nil
+//@   modifies *
+//@   usestable Statement.ssn Session.ClusterInfo Session.Cache
+//@   loop 1
+//@     invariant 0 - 1 <= rangeindex && rangeindex < len(s.operations)
+//@     decreases len(s.operations) - rangeindex
+//@   ensures [lenGrows] len(s.operations) >= old(len(s.operations))
+//@   ensures [prefixKept] forall j int :: 0 <= j && j < old(len(s.operations)) ==> s.operations[j] == old(s.operations[j])
+//@   ensures [newEntriesOK] forall j int :: old(len(s.operations)) <= j && j < len(s.operations) ==> okEntry(s.operations[j], j)
+//@   ensures [reversalsMonotone] old(reversals()) <= reversals()
+//@   ensures [emptyLogFails] old(len(s.operations)) == 0 ==> result != nil && reversals() == old(reversals())
+//@   ensures [appendsOnlyUndo] opName != "undo" ==> forall j int :: old(len(s.operations)) <= j && j < len(s.operations) ==> isUndoOp(s.operations[j])
+//@   ensures [virtual] cache.evictCalls() == old(cache.evictCalls()) && cache.pipelinedCalls() == old(cache.pipelinedCalls()) && cache.bindCalls() == old(cache.bindCalls())
+//@   ensures [ssnKept] ssnKept(s)
+//@   ensures [revFailMono] revFailMono()
+//@ end
+//@ func (*Statement).Unevict
+//@   inline
+//@ end
+
+// library model (assumed): element-wise slice equality
+//@ func golang.org/x/exp/slices.Equal
+//@   pure
+//@   ensures result == (len(s1) == len(s2) && (forall i int :: 0 <= i && i < len(s1) ==> s1[i] == s2[i]))
+//@   note assumed library model of golang.org/x/exp/slices.Equal
+//@ end
+
+// Pipeline (nominate). Three outcomes: unknown node/job (error, nothing touched); the task still sits
+// on that node from an earlier virtual eviction and no update is asked for (the eviction is undone
+// instead: Unevict); otherwise one pipeline entry is appended.
+//@ func (*Statement).Pipeline
+//@   props C13 C01
+//@   nopanic off
+//@   note nopanic off: with the C14 contracts of the node/job mutators in the context the nil-dereference obligations time out (no countermodel); the functional postconditions below are machine-checked
+//@   requires stmtOK(s) && wfLog(s) && task != nil
+//@   assume hostname in s.ssn.ClusterInfo.Nodes ==> (forall k in s.ssn.ClusterInfo.Nodes[hostname].PodInfos :: s.ssn.ClusterInfo.Nodes[hostname].PodInfos[k] != nil)
+//@   note the assume on PodInfos values (no nil task recorded on a node) is a node_info invariant like nodeReady; it was a `requires` before, but no caller can carry it across the `modifies *` statement operations
+//@   assume jobReady(s.ssn.ClusterInfo.PodGroupInfos[task.Job], task) && nodeReady(s.ssn.ClusterInfo.Nodes[hostname], task) && jobNodeSep(s.ssn.ClusterInfo.PodGroupInfos[task.Job], s.ssn.ClusterInfo.Nodes[hostname])
+//@   modifies *
+//@   loop 1
+//@     invariant 0 - 1 <= rangeindex && rangeindex < len(s.ssn.eventHandlers)
+//@     invariant allocEvents() - old(allocEvents()) <= rangeindex + 1
+//@     invariant s.operations == old(s.operations)
+//@     decreases len(s.ssn.eventHandlers) - rangeindex
+//@   ensures [failsOnUnknownJobOrNode] !old(task.Job in s.ssn.ClusterInfo.PodGroupInfos) || !old(hostname in s.ssn.ClusterInfo.Nodes) ==> result != nil && s.operations == old(s.operations) && task.Status == old(task.Status) && task.NodeName == old(task.NodeName)
+//@   ensures [lenGrows] len(s.operations) >= old(len(s.operations))
+//@   ensures [prefixKept] forall j int :: 0 <= j && j < old(len(s.operations)) ==> s.operations[j] == old(s.operations[j])
+//@   ensures [virtual] noEmission()
+//@   ensures [appendsOnePipeline] updateTaskIfExistsOnNode && result == nil ==> appendedOne(s) && isPipelineOp(lastOp(s))
+//@   ensures [capturesTask] updateTaskIfExistsOnNode && result == nil ==> unbox(lastOp(s), "pipelineOperation").taskInfo == task && unbox(lastOp(s), "pipelineOperation").previousStatus == old(task.Status) && unbox(lastOp(s), "pipelineOperation").previousNode == old(task.NodeName) && unbox(lastOp(s), "pipelineOperation").nextNode == hostname && unbox(lastOp(s), "pipelineOperation").reverseOperation != nil
+//@   ensures [nowNominated] updateTaskIfExistsOnNode && result == nil ==> task.NodeName == hostname && task.IsVirtualStatus
+//@   ensures [handlerPolarity] updateTaskIfExistsOnNode ==> deallocEvents() == old(deallocEvents())
+//@   ensures [newEntriesOK] forall j int :: old(len(s.operations)) <= j && j < len(s.operations) ==> okEntry(s.operations[j], j)
+//@   # C03 "ShouldPipelineJob + ConvertAllAllocatedToPipelined": nominating never creates a bind entry (it appends one
+//@   # pipeline entry, or - un-evicting a task that still sits on the node - one undo entry)
+//@   ensures [noAllocateEntryAppended] forall j int :: old(len(s.operations)) <= j && j < len(s.operations) ==> !isAllocateOp(s.operations[j])
+//@   ensures [statusPipelinedOrKept] updateTaskIfExistsOnNode ==> task.Status == pod_status.Pipelined || task.Status == old(task.Status)
+//@   ensures [sessionKept] updateTaskIfExistsOnNode ==> sessionKept(s.ssn)
+//@   ensures [opCellsKept] updateTaskIfExistsOnNode ==> opCellsKept()
+//@   ensures [revFailMono] revFailMono() && (updateTaskIfExistsOnNode ==> reverseFailures() == old(reverseFailures()))
+//@ end
+
+// C03 "ShouldPipelineJob + ConvertAllAllocatedToPipelined": after the conversion no task of that job is left
+// as a real bind in the statement (every allocate entry of the job is replaced by a pipeline entry).
+//@ define noBindOf(o Operation, jobID common_info.PodGroupID) bool = !(isAllocateOp(o) && opTask(o).Job == jobID)
+//@ func (*Statement).ConvertAllAllocatedToPipelined
+//@   props C13 C03
+//@   nopanic off
+//@   note nopanic off: the type assertion op.(allocateOperation) and the slice reads are fine (Name() == "allocate"), but the nil-dereference obligations after the `modifies *` calls time out as in Pipeline
+//@   requires stmtOK(s) && wfLog(s)
+//@   modifies *
+//@   loop 1
+//@     modifies *
+//@     invariant 0 - 1 <= rangeindex && rangeindex < old(len(s.operations))
+//@     invariant stmtOK(s)
+//@     invariant reverseFailures() == old(reverseFailures())
+//@     invariant len(s.operations) >= old(len(s.operations))
+//@     invariant forall j int :: 0 <= j && j < old(len(s.operations)) ==> s.operations[j] == old(s.operations[j])
+//@     invariant forall p *Operation :: old(allocated(p)) ==> *p == old(*p)
+//@     invariant wfKnown(s)
+//@     invariant wfRev(s)
+//@     invariant wfBack(s)
+//@     invariant wfTask(s)
+//@     decreases old(len(s.operations)) - rangeindex
+//@   loop 2
+//@     invariant 0 - 1 <= rangeindex
+//@     invariant forall k int :: 0 <= k && k < len(newOperations) ==> noBindOf(newOperations[k], jobID)
+//@     decreases len(s.operations) - rangeindex
+//@   ensures [noBindLeftForJob] result == nil ==> forall j int :: 0 <= j && j < len(s.operations) ==> noBindOf(s.operations[j], jobID)
+//@   ensures [noReverseFailure] reverseFailures() == old(reverseFailures())
+//@ end
+
+// ---- the closures stored in log entries ---------------------------------------------------------
+// Each ReverseOperation value is one of these closures. They are verified against the frame facts
+// that the assumed `type:ReverseOperation` contract promises (logs only grow / old entries kept /
+// appended entries well-formed / no cache call).
+//@ func (*Statement).Evict$1
+//@   props C13
+//@   requires stmtOK(s) && reclaimeeTask != nil
+//@   modifies *
+//@   ensures logsSame() && noEmission()
+//@ end
+//@ func (*Statement).Pipeline$1
+//@   props C13
+//@   requires stmtOK(s) && task != nil
+//@   modifies *
+//@   ensures logsSame() && noEmission()
+//@ end
+//@ func (*Statement).Allocate$1
+//@   props C13
+//@   requires stmtOK(s) && task != nil && node != nil
+//@   modifies *
+//@   ensures logsSame() && noEmission()
+//@ end
+
+
+// ---- commit ---------------------------------------------------------------------------------------
+// The three emission points. cache.evictCalls()/pipelinedCalls()/bindCalls() are ghost counters
+// bumped by the (assumed) cache interface contracts.
+//@ define emitsOnly(de int, dp int, db int) bool = cache.evictCalls() - old(cache.evictCalls()) <= de && cache.pipelinedCalls() - old(cache.pipelinedCalls()) <= dp && cache.bindCalls() - old(cache.bindCalls()) <= db && cache.evictCalls() >= old(cache.evictCalls()) && cache.pipelinedCalls() >= old(cache.pipelinedCalls()) && cache.bindCalls() >= old(cache.bindCalls())
+
+//@ func (*Statement).commitEvict
+//@   props C13 C06
+//@   requires stmtOK(s) && s.ssn.Cache != nil && reclaimee != nil
+//@   modifies *
+//@   ensures [oneEvictAtMost] emitsOnly(1, 0, 0)
+//@   ensures [evictIffGroupKnown] old(reclaimee.Job in s.ssn.ClusterInfo.PodGroupInfos) ==> cache.evictCalls() == old(cache.evictCalls()) + 1
+//@   ensures [committedIsReal] result == nil ==> !reclaimee.IsVirtualStatus
+//@   ensures [logsSame] logsSame()
+//@   ensures [reversesNothing] reversals() == old(reversals()) && reverseFailures() == old(reverseFailures())
+//@   ensures [commitEnvKept] commitEnvKept(s.ssn)
+//@   ensures [placementKept] forall t *pod_info.PodInfo :: old(allocated(t)) ==> t.Status == old(t.Status) && t.NodeName == old(t.NodeName)
+//@ end
+
+//@ func (*Statement).commitPipeline
+//@   props C13
+//@   requires s != nil && s.ssn != nil && s.ssn.Cache != nil
+//@   modifies cache.pipelinedCalls()
+//@   ensures cache.pipelinedCalls() == old(cache.pipelinedCalls()) + 1
+//@ end
+
+//@ func (*Session).MutateBindRequestAnnotations
+//@   props C01
+//@   requires ssn != nil
+//@   requires forall i int :: 0 <= i && i < len(ssn.BindRequestMutateFns) ==> ssn.BindRequestMutateFns[i] != nil
+//@   fresh
+//@   loop 1
+//@     invariant 0 - 1 <= rangeindex && rangeindex < len(ssn.BindRequestMutateFns)
+//@     invariant annotations != nil && fresh(annotations)
+//@     invariant forall m map[string]string, k string :: m != annotations ==> (k in m) == old(k in m) && m[k] == old(m[k])
+//@     decreases len(ssn.BindRequestMutateFns) - rangeindex
+//@ end
+
+
+// C01: "whatever bind/evict API calls fail": a failing Bind leaves the session's view of the pod as it was.
+//@ func (*Session).BindPod
+//@   props C13 C01
+//@   requires sessOK(ssn) && ssn.Cache != nil && bindFnsOK(ssn) && pod != nil && pod.Pod != nil
+//@   assume jobReady(ssn.ClusterInfo.PodGroupInfos[pod.Job], pod)
+//@   modifies *
+//@   ensures [oneBind] cache.bindCalls() == old(cache.bindCalls()) + 1 && cache.evictCalls() == old(cache.evictCalls()) && cache.pipelinedCalls() == old(cache.pipelinedCalls())
+//@   ensures [boundIsBinding] result == nil ==> pod.Status == pod_status.Binding
+//@   ensures [failureKeepsStatus] result != nil ==> pod.Status == old(pod.Status)
+//@   ensures [placementKept] pod.NodeName == old(pod.NodeName) && pod.GPUGroups == old(pod.GPUGroups) && pod.IsVirtualStatus == old(pod.IsVirtualStatus)
+//@   ensures [logsSame] logsSame()
+//@   ensures [reversesNothing] reversals() == old(reversals()) && reverseFailures() == old(reverseFailures())
+//@   ensures [noHandlers] allocEvents() == old(allocEvents()) && deallocEvents() == old(deallocEvents())
+//@   ensures [commitEnvKept] commitEnvKept(ssn)
+//@   nopanic off
+//@   note nopanic off: `&pod.Pod.CreationTimestamp.Time` (address of a field inside the opaque metav1.Time scalar, argument of a metrics no-op) is over-approximated by the engine as a fresh pointer
+//@   ensures [othersPlacedKept] othersPlacedKept(pod)
+//@ end
+
+//@ func (*Statement).cleanupFailedAllocation
+//@   inline
+//@ end
+
+// C01: "commitAllocate/cleanupFailedAllocation undo a failed bind".
+//@ func (*Statement).commitAllocate
+//@   props C13 C01
+//@   requires stmtOK(s) && s.ssn.Cache != nil && bindFnsOK(s.ssn) && task != nil && task.Pod != nil
+//@   requires nodesShared(s.ssn.ClusterInfo)
+//@   modifies *
+//@   loop 1
+//@     invariant 0 - 1 <= rangeindex && rangeindex < len(task.GPUGroups)
+//@     invariant cache.bindCalls() == old(cache.bindCalls())
+//@     invariant reversals() == old(reversals()) && reverseFailures() == old(reverseFailures())
+//@     decreases len(task.GPUGroups) - rangeindex
+//@   ensures [oneBindAtMost] emitsOnly(0, 0, 1)
+//@   ensures [bindIffNodeKnown] cache.bindCalls() == old(cache.bindCalls()) + ite(old(task.NodeName in s.ssn.ClusterInfo.Nodes), 1, 0)
+//@   ensures [boundIsBinding] result == nil ==> task.Status == pod_status.Binding
+//@   ensures [boundKeepsNode] result == nil ==> task.NodeName == old(task.NodeName)
+//@   ensures [failedBindIsUnallocated] result != nil && old(task.NodeName in s.ssn.ClusterInfo.Nodes) ==> task.NodeName == ""
+//@   ensures [failedBindNotVirtual] result != nil && old(task.NodeName in s.ssn.ClusterInfo.Nodes) ==> !task.IsVirtualStatus
+//@   ensures [logsSame] logsSame()
+//@   ensures [reversesNothing] reversals() == old(reversals()) && reverseFailures() == old(reverseFailures())
+//@   ensures [commitEnvKept] commitEnvKept(s.ssn)
+//@   ensures [othersPlacedKept] othersPlacedKept(task)
+//@ end
+
+// C13 (top): "Committing emits exactly the net effect of the steps still valid: ... nothing is
+// emitted for undone steps"; "log cleared on every path". Commit runs at a quiescent point, so the
+// log is flat: entry j is live iff it is not an undo entry and no undo entry targets it.
+//@ define live(s *Statement, j int) bool = !isUndoOp(s.operations[j]) && noUndoFor(s, j)
+//@ define emitted() int = cache.evictCalls() + cache.pipelinedCalls() + cache.bindCalls()
+// C01 "whatever bind/evict API calls fail" (mechanism: commitAllocate/cleanupFailedAllocation undo a failed bind): a commit
+// takes no task off its node except THE task whose bind failed (so capacity held by pods whose Bind succeeded is not
+// handed out again). Stated on NodeName only: with the Status conjunct (Binding or unchanged; true and provable, it is
+// what commitAllocate [boundIsBinding] + [othersPlacedKept] give per step) Commit's obligations take 10-17 s.
+//@ define bindOK(t *pod_info.PodInfo) bool = t.NodeName == old(t.NodeName)
+//@ define commitReady(s *Statement) bool = stmtOK(s) && s.ssn.Cache != nil && bindFnsOK(s.ssn) && nodesShared(s.ssn.ClusterInfo) && (forall j int :: 0 <= j && j < len(s.operations) && isAllocateOp(s.operations[j]) ==> opTask(s.operations[j]).Pod != nil)
+
+//@ func (*Statement).Commit
+//@   props C13 C01 C06
+//@   requires commitReady(s) && wfLog(s) && flatLog(s)
+//@   modifies *
+//@   loop 1
+//@     modifies *
+//@     invariant 0 - 1 <= rangeindex && rangeindex < old(len(s.operations))
+//@     invariant s.operations == old(s.operations)
+//@     invariant forall j int :: 0 <= j && j < old(len(s.operations)) ==> s.operations[j] == old(s.operations[j])
+//@     invariant commitReady(s)
+//@     invariant cache.evictCalls() >= old(cache.evictCalls()) && cache.pipelinedCalls() >= old(cache.pipelinedCalls()) && cache.bindCalls() >= old(cache.bindCalls())
+//@     invariant emitted() - old(emitted()) <= rangeindex + 1
+//@     invariant reversals() == old(reversals()) && reverseFailures() == old(reverseFailures())
+//@     invariant forall t *pod_info.PodInfo :: old(allocated(t)) ==> bindOK(t)
+//@     invariant (forall j int :: 0 <= j && j <= rangeindex ==> !old(live(s, j))) ==> emitted() == old(emitted())
+//@     invariant (forall j int :: 0 <= j && j <= rangeindex ==> !(old(live(s, j)) && isEvictOp(old(s.operations[j])))) ==> cache.evictCalls() == old(cache.evictCalls())
+//@     invariant (forall j int :: 0 <= j && j <= rangeindex ==> !(old(live(s, j)) && isPipelineOp(old(s.operations[j])))) ==> cache.pipelinedCalls() == old(cache.pipelinedCalls())
+//@     invariant (forall j int :: 0 <= j && j <= rangeindex ==> !(old(live(s, j)) && isAllocateOp(old(s.operations[j])))) ==> cache.bindCalls() == old(cache.bindCalls())
+//@     decreases old(len(s.operations)) - rangeindex
+//@   ensures [logCleared] len(s.operations) == 0
+//@   ensures [atMostOnePerEntry] emitted() - old(emitted()) <= old(len(s.operations))
+//@   ensures [nothingForUndone] (forall j int :: 0 <= j && j < old(len(s.operations)) ==> !old(live(s, j))) ==> emitted() == old(emitted())
+//@   ensures [evictOnlyForLiveEvicts] (forall j int :: 0 <= j && j < old(len(s.operations)) ==> !(old(live(s, j)) && isEvictOp(old(s.operations[j])))) ==> cache.evictCalls() == old(cache.evictCalls())
+//@   ensures [nominateOnlyForLivePipelines] (forall j int :: 0 <= j && j < old(len(s.operations)) ==> !(old(live(s, j)) && isPipelineOp(old(s.operations[j])))) ==> cache.pipelinedCalls() == old(cache.pipelinedCalls())
+//@   ensures [bindOnlyForLiveAllocates] (forall j int :: 0 <= j && j < old(len(s.operations)) ==> !(old(live(s, j)) && isAllocateOp(old(s.operations[j])))) ==> cache.bindCalls() == old(cache.bindCalls())
+//@   ensures [emptyLogIsNoop] old(len(s.operations)) == 0 ==> result == nil && emitted() == old(emitted())
+//@   # C13 "nothing is emitted for undone steps" / C01 "whatever bind/evict API calls fail": committing never runs
+//@   # the reverse closure of a log entry - in particular a failing Bind must not undo the steps whose Bind succeeded
+//@   ensures [commit-reverses-nothing] reversals() == old(reversals())
+//@   ensures [noReverseFailure] reverseFailures() == old(reverseFailures())
+//@   ensures [onlyFailedBindUnallocated] forall t1 *pod_info.PodInfo, t2 *pod_info.PodInfo :: old(allocated(t1)) && old(allocated(t2)) && !bindOK(t1) && !bindOK(t2) ==> t1 == t2
+//@   ensures [successKeepsPlacements] result == nil ==> forall t *pod_info.PodInfo :: old(allocated(t)) ==> bindOK(t)
+//@ end
+
+// ---- session.go -----------------------------------------------------------------------------------
+// C13: every what-if simulation starts from an empty log bound to the session.
+//@ func (*Session).Statement
+//@   props C13
+//@   requires ssn != nil
+//@   fresh
+//@   ensures result.ssn == ssn && len(result.operations) == 0 && result.sessionID == ssn.ID
+//@ end
+
+// ---- plugin dispatch called between statement operations (allocate path: C01 C03 C04) ---------------
+// These Session methods run the registered plugin callbacks (func-typed values: predicates, node/GPU
+// scoring, subset functions, capacity checks; OrderedNodesByTask additionally uses goroutines). They are
+// `trusted`: ASSUMED frame of plugin code, of the same nature as `type:ReverseOperation` above - a plugin
+// callback never touches a statement log or an Operation cell, never calls the cache emission points,
+// never runs a reverse closure, and leaves the session skeleton alone. Everything else may change
+// (fit errors recorded on the job, plugin-private state), hence `modifies *`.
+
+//@ declare jobCapacityVerdict(ssn *Session, job *podgroup_info.PodGroupInfo) bool
+
+//@ func (*Session).FittingNode
+//@   props C01 C03 C04
+//@   trusted
+//@   note assumed frame of the registered PredicateFns / capacity callbacks (function values); the verdict itself is not constrained here
+//@   requires ssn != nil
+//@   modifies *
+//@   ensures [logsSame] logsSame()
+//@   ensures [virtual] noEmission() && reversals() == old(reversals()) && reverseFailures() == old(reverseFailures())
+//@   ensures [sessionKept] old(sessOK(ssn)) ==> sessionKept(ssn)
+//@ end
+//@ func (*Session).PrePredicateFn
+//@   props C01 C03 C04
+//@   trusted
+//@   note assumed frame of the registered PrePredicateFns (function values)
+//@   requires ssn != nil
+//@   modifies *
+//@   ensures [logsSame] logsSame()
+//@   ensures [virtual] noEmission() && reversals() == old(reversals()) && reverseFailures() == old(reverseFailures())
+//@   ensures [sessionKept] old(sessOK(ssn)) ==> sessionKept(ssn)
+//@ end
+//@ func (*Session).PreJobAllocation
+//@   props C01 C03 C04
+//@   trusted
+//@   note assumed frame of the registered PreJobAllocationFns (function values)
+//@   requires ssn != nil
+//@   modifies *
+//@   ensures [logsSame] logsSame()
+//@   ensures [virtual] noEmission() && reversals() == old(reversals()) && reverseFailures() == old(reverseFailures())
+//@   ensures [sessionKept] old(sessOK(ssn)) ==> sessionKept(ssn)
+//@   ensures [jobKept] old(podgroup_info.setsOK(job) && podgroup_info.allTasksOK(job)) ==> podgroup_info.setsOK(job) && podgroup_info.allTasksOK(job)
+//@   note [jobKept] assumed: the registered PreJobAllocationFns (topology) do not touch the job's pod sets / tasks
+//@ end
+//@ func (*Session).IsJobOverQueueCapacityFn
+//@   props C01 C03 C04
+//@   trusted
+//@   note assumed frame of the registered IsJobOverCapacityFns (function values); every registered function (proportion) returns a non-nil result, as does the fallback
+//@   requires ssn != nil
+//@   modifies *
+//@   ensures [logsSame] logsSame()
+//@   ensures [virtual] noEmission() && reversals() == old(reversals()) && reverseFailures() == old(reverseFailures())
+//@   ensures [sessionKept] old(sessOK(ssn)) ==> sessionKept(ssn)
+//@   ensures [resultNonNil] result != nil
+//@   ensures [verdictNamed] result.IsSchedulable == jobCapacityVerdict(ssn, job)
+//@   note jobCapacityVerdict(ssn, job) is a naming device for the callback's verdict at this call (so that a caller can refer to it after later havocs); it equates the verdicts of two calls for the same (ssn, job), which is only meaningful while the queue/job state is unchanged between them - the callers under contract (common.AllocateJob) call it once
+//@ end
+//@ func (*Session).PodSetOrderFn
+//@   props C01 C03 C04
+//@   trusted
+//@   note assumed read-only: runs the registered PodSetOrderFns comparators (function values); the order itself is not constrained here
+//@   requires ssn != nil
+//@   pure
+//@ end
+//@ func (*Session).SubGroupSetOrderFn
+//@   props C01 C03 C04
+//@   trusted
+//@   note assumed read-only: runs the registered SubGroupSetOrderFns comparators (function values); the order itself is not constrained here
+//@   requires ssn != nil
+//@   pure
+//@ end
+//@ func (*Session).FittingGPUs
+//@   props C01 C02
+//@   trusted
+//@   note assumed read-only: ranks the node's GPU groups through the registered GpuOrderFn plugin callbacks (function values, outside the subset); the returned list is not constrained
+//@   requires ssn != nil && node != nil && pod != nil
+//@   pure
+//@ end
+// C04 "only nodes of the candidate set": the scoring step returns a re-ordered selection of its input
+// (nodes whose scoring failed are dropped), the subset step returns subsets of the parent node set.
+//@ func (*Session).OrderedNodesByTask
+//@   props C01 C03 C04
+//@   trusted
+//@   note goroutines + sync (outside the subset); assumed frame of the NodePreOrderFns / NodeOrderFns callbacks, and that the result only contains nodes of the input slice (the body appends input nodes to score buckets and concatenates the buckets)
+//@   requires ssn != nil
+//@   modifies *
+//@   ensures [logsSame] logsSame()
+//@   ensures [virtual] noEmission() && reversals() == old(reversals()) && reverseFailures() == old(reverseFailures())
+//@   ensures [sessionKept] old(sessOK(ssn)) ==> sessionKept(ssn)
+//@   ensures [onlyInputNodes] forall i int :: 0 <= i && i < len(result) ==> result[i] != nil && (exists j int :: 0 <= j && j < len(nodes) && nodes[j] == result[i])
+//@   ensures [inputKept] forall j int :: 0 <= j && j < len(nodes) ==> nodes[j] == old(nodes[j])
+//@ end
+//@ func (*Session).SubsetNodesFn
+//@   props C01 C03 C04
+//@   trusted
+//@   note assumed frame of the registered SubsetNodesFns (function values), and ASSUMED (not proved here) that every registered subset function (topology plugin) returns subsets of the node set it is given; with no function registered the result is the input set itself
+//@   requires ssn != nil
+//@   modifies *
+//@   ensures [logsSame] logsSame()
+//@   ensures [virtual] noEmission() && reversals() == old(reversals()) && reverseFailures() == old(reverseFailures())
+//@   ensures [sessionKept] old(sessOK(ssn)) ==> sessionKept(ssn)
+//@   ensures [subsetsOfParent] result1 == nil ==> forall a int, i int :: 0 <= a && a < len(result0) && 0 <= i && i < len(result0[a]) ==> result0[a][i] != nil && (exists j int :: 0 <= j && j < len(initNodeSet) && initNodeSet[j] == result0[a][i])
+//@ end
+
+// ---- stable fields (engine batches 7-9): written by constructors / plugin registration only; govc checks
+// mechanically, per havoc, that no storing function is reachable. Used only by units that say `usestable`.
+//@ stable Statement.ssn
+//@ stable Statement.sessionID
+//@ stable Session.ClusterInfo
+//@ stable Session.Cache
+//@ stable Session.eventHandlers
+//@ stable slicetype []*EventHandler
+//@ stable Session.ReclaimScenarioValidatorFns
+//@ stable Session.PreemptScenarioValidatorFns
+//@ stable Session.ReclaimVictimFilterFns
+//@ stable Session.PreemptVictimFilterFns
